@@ -22,12 +22,19 @@
                              at the bottom, possibly followed by blank filler (`keptOrCut`);
   * `C10_rows_only`, `C10_rows_only_rows` — the height-only half (no reflow), also on the rows themselves;
   * `C10_cursorLogical_eq_logicalPosition` — the structural `cursorLogical` is what the code's
-                             `logical_position` computes.
+                             `logical_position` computes;
+  * `C10_pending_place`    — the wrap-pending cursor (`C10_pending_place_full`): when the cursor is
+                             wrap-pending at the end of a soft-wrapped row, its logical offset names a
+                             character of the text (the first cell of the next row); every resize keeps that
+                             offset, a resize that changes the width puts the cursor ON that character
+                             (`C10_pending_place_width`), a height-only resize keeps the character unless
+                             the rows below the cursor row were dropped, i.e. the line was cut exactly at
+                             the cursor (`C10_pending_place_rows`, which holds for every cursor).
   The width-changing case (`Lemmas/C10Width*.lean`) factors `Buffer.resize` as: reflow + cursor
   translation, then a height-only resize of the reflowed rows; it uses the phase decomposition and the
   totality facts of Lemmas/Resize.lean (`rsStep1`, `rsStep2`, `resize_eq`, `rsStep1_ok`, `rsStep2_ok`).
 -/
-import Avt.Lemmas.C10Width3
+import Avt.Lemmas.C10Pending
 
 namespace Avt.Props.C10
 open Avt Avt.Spec.C10 Avt.Lemmas
@@ -168,6 +175,96 @@ theorem C10_resize : C10_resize_full := by
     exact width_rel v.terminal.pendingWrap hvl hrows hlens hlu (by rw [hr]; exact hrow) hc1 hr1
       (by rw [hc]; exact hsame) h1
 
+/-! ### the wrap-pending cursor -/
+
+/-- **C10, the wrap-pending cursor** (same hypotheses as `C10_resize_full`): if the cursor is
+    wrap-pending and its logical offset names a character of the text (`pendingOnChar`: the row is
+    soft-wrapped, the character is the first cell of the next row), then after the resize the cursor
+    has the same logical offset, and
+    * if the width changed, it is on that same character (`onCharOK`);
+    * if only the height changed, the character at that offset is the same one, or the cursor's line
+      now ends at the cursor (the rows below the cursor row were dropped) (`pendingPlaceOK`). -/
+def C10_pending_place_full : Prop :=
+  ∀ (v v' : Vt) (c r : Nat) (ch : Changes),
+    Inv v = true → 1 ≤ c → 1 ≤ r →
+    v.terminal.activeBufferType = .primary → v.terminal.scrollbackLimit = none →
+    v.resize c r = some (v', ch) →
+    pendingPlaceRel (logicalLines v.terminal.buffer.lines) (logicalLines v'.terminal.buffer.lines)
+      (cursorOf v.terminal).1 (cursorOf v.terminal).2 (cursorOf v'.terminal).2
+      v.terminal.pendingWrap (v'.terminal.buffer.cols != v.terminal.buffer.cols) = true
+
+/-- a resize that changes the width: a wrap-pending cursor whose offset names a character of the text
+    ends up ON that character (same offset, same cell) -/
+theorem C10_pending_place_width {v v' : Vt} {c r : Nat} {ch : Changes} (hinv : Inv v = true)
+    (hc1 : 1 ≤ c) (hr1 : 1 ≤ r)
+    (hprim : v.terminal.activeBufferType = .primary) (hlim : v.terminal.scrollbackLimit = none)
+    (hne : c ≠ v.terminal.cols) (h : v.resize c r = some (v', ch))
+    (hp : pendingOnChar (logicalLines v.terminal.buffer.lines)
+      (cursorOf v.terminal).1 (cursorOf v.terminal).2 v.terminal.pendingWrap = true) :
+    onCharOK (logicalLines v.terminal.buffer.lines) (logicalLines v'.terminal.buffer.lines)
+      (cursorOf v.terminal).1 (cursorOf v.terminal).2 (cursorOf v'.terminal).2 = true := by
+  obtain ⟨hc, hr, hvl, hlens, hrow, hcol, hstrict, hl, hrows, hlu⟩ := inv_facts hinv
+  obtain ⟨b', cur', h1, h2, h3, -, -, h6, h7⟩ := vt_resize_buffer (hl hprim hlim) h
+  have hcur' : cursorOf v'.terminal = cursorLogical b' cur' := by
+    simp only [cursorOf, cursorLogical, h2, h3, h6, h7]
+  rw [hcur', h2]
+  exact width_pending v.terminal.pendingWrap hvl hrows hlens hlu (by rw [hr]; exact hrow) hc1 hr1
+    (by rw [hc]; exact hne) h1 hp
+
+/-- a resize that keeps the width (any new height), EVERY cursor (wrap-pending or not): the cursor
+    keeps its logical offset, and the character at that offset is the same one — or the cursor's line
+    was cut at the cursor (only possible for a wrap-pending cursor, whose character is on the next
+    row: rows below the cursor row may be dropped) -/
+theorem C10_pending_place_rows {v v' : Vt} {r : Nat} {ch : Changes} (hinv : Inv v = true)
+    (hprim : v.terminal.activeBufferType = .primary) (hlim : v.terminal.scrollbackLimit = none)
+    (h : v.resize v.terminal.cols r = some (v', ch)) :
+    pendingPlaceOK (logicalLines v.terminal.buffer.lines) (logicalLines v'.terminal.buffer.lines)
+      (cursorOf v.terminal).1 (cursorOf v.terminal).2 (cursorOf v'.terminal).2 = true := by
+  obtain ⟨hc, hr, hvl, hlens, hrow, hcol, -, hl, -, -⟩ := inv_facts hinv
+  obtain ⟨b', cur', h1, h2, h3, -, -, h6, h7⟩ := vt_resize_buffer (hl hprim hlim) h
+  have hcur' : cursorOf v'.terminal = cursorLogical b' cur' := by
+    simp only [cursorOf, cursorLogical, h2, h3, h6, h7]
+  rw [hcur', h2]
+  rw [← hc] at h1
+  exact rows_only_pending hvl hlens (by rw [hr]; exact hrow) (by rw [hc]; exact hcol) h1
+
+/-- **C10, the wrap-pending cursor**: the full statement holds -/
+theorem C10_pending_place : C10_pending_place_full := by
+  intro v v' c r ch hinv hc1 hr1 hprim hlim h
+  obtain ⟨hc, -, -, -, -, -, -, hl, -, -⟩ := inv_facts hinv
+  obtain ⟨b', cur', h1, -, -, h4, -, -, -⟩ := vt_resize_buffer (hl hprim hlim) h
+  have hcols : v'.terminal.buffer.cols = c := by rw [h4]; exact buffer_resize_cols h1
+  simp only [pendingPlaceRel, Bool.or_eq_true, Bool.not_eq_true']
+  cases hp : pendingOnChar (logicalLines v.terminal.buffer.lines)
+      (cursorOf v.terminal).1 (cursorOf v.terminal).2 v.terminal.pendingWrap with
+  | false => exact Or.inl rfl
+  | true =>
+    right
+    by_cases hsame : c = v.terminal.cols
+    · subst hsame
+      have : (v'.terminal.buffer.cols != v.terminal.buffer.cols) = false := by
+        rw [hcols, hc]; simp
+      rw [this]
+      exact C10_pending_place_rows hinv hprim hlim h
+    · have : (v'.terminal.buffer.cols != v.terminal.buffer.cols) = true := by
+        rw [hcols, hc]; simpa using hsame
+      rw [this]
+      exact C10_pending_place_width hinv hc1 hr1 hprim hlim hsame h hp
+
+/-- in every case (whatever changed) the wrap-pending cursor on a character keeps its logical offset,
+    and the character there is the same one or the line was cut at the cursor -/
+theorem C10_pending_place_weak {v v' : Vt} {c r : Nat} {ch : Changes} (hinv : Inv v = true)
+    (hc1 : 1 ≤ c) (hr1 : 1 ≤ r)
+    (hprim : v.terminal.activeBufferType = .primary) (hlim : v.terminal.scrollbackLimit = none)
+    (h : v.resize c r = some (v', ch))
+    (hp : pendingOnChar (logicalLines v.terminal.buffer.lines)
+      (cursorOf v.terminal).1 (cursorOf v.terminal).2 v.terminal.pendingWrap = true) :
+    pendingPlaceOK (logicalLines v.terminal.buffer.lines) (logicalLines v'.terminal.buffer.lines)
+      (cursorOf v.terminal).1 (cursorOf v.terminal).2 (cursorOf v'.terminal).2 = true := by
+  by_cases hsame : c = v.terminal.cols
+  · subst hsame; exact C10_pending_place_rows hinv hprim hlim h
+  · exact pendingPlaceOK_of_onCharOK (C10_pending_place_width hinv hc1 hr1 hprim hlim hsame h hp)
+
 /-- the restriction to `c = cols` (kept under its own name: it does not depend on the reflow lemmas) -/
 theorem C10_resize_partial : ∀ (v v' : Vt) (r : Nat) (ch : Changes),
     Inv v = true → v.terminal.activeBufferType = .primary → v.terminal.scrollbackLimit = none →
@@ -263,6 +360,45 @@ example :
                relOf v a && relOf v b && relOf v c && cursorOf a.terminal == (0, 3)
                  && cursorOf b.terminal == (0, 3) && cursorOf c.terminal == (0, 3)
              | _, _, _ => false)
+     | none => false) = true := by decide
+
+/-! ### a concrete instance for the wrap-pending cursor: 4x3 terminal, "abcdefgh", CUP 1;4, "X" -/
+
+/-- "abcdefgh" on 4 columns (row 0 "abcd" soft-wrapped, row 1 "efgh"), cursor to row 1 / column 4,
+    print "X": the cursor is wrap-pending at (4, 0), its logical offset 4 names the 'e' -/
+def demoPending : Option Vt :=
+  (Vt.new 4 3 none).bind fun v =>
+    (v.feedStr [0x61, 0x62, 0x63, 0x64, 0x65, 0x66, 0x67, 0x68, 0x1b, 0x5b, 0x31, 0x3b, 0x34, 0x48, 0x58]).map (·.1)
+
+def pendingRelOf (v v' : Vt) : Bool :=
+  pendingPlaceRel (logicalLines v.terminal.buffer.lines) (logicalLines v'.terminal.buffer.lines)
+    (cursorOf v.terminal).1 (cursorOf v.terminal).2 (cursorOf v'.terminal).2
+    v.terminal.pendingWrap (v'.terminal.buffer.cols != v.terminal.buffer.cols)
+
+/-- the hypotheses of `C10_pending_place` are satisfiable with `pendingOnChar = true`, and the clause
+    holds for a widening resize (4x3 → 8x3: one row "abcXefgh", cursor on the 'e' at column 4, not
+    pending), a narrowing one (→ 2x4: five rows, one in the scrollback, cursor on the 'e' at column 0
+    of view row 1) and two height-only ones (→ 4x2 keeps the 'e' row; → 4x1 drops it: the line is cut
+    at the cursor, the disjunct `b.length ≤ o`) -/
+example :
+    (match demoPending with
+     | some v =>
+       Inv v && v.terminal.activeBufferType == .primary && v.terminal.scrollbackLimit == none
+         && v.terminal.pendingWrap && v.terminal.cursor.col == 4 && v.terminal.cursor.row == 0
+         && cursorOf v.terminal == (0, 4)
+         && pendingOnChar (logicalLines v.terminal.buffer.lines) 0 4 v.terminal.pendingWrap
+         && (match v.resize 8 3, v.resize 2 4, v.resize 4 2, v.resize 4 1 with
+             | some (a, _), some (b, _), some (c, _), some (d, _) =>
+               pendingRelOf v a && pendingRelOf v b && pendingRelOf v c && pendingRelOf v d
+                 && cursorOf a.terminal == (0, 4) && cursorOf b.terminal == (0, 4)
+                 && cursorOf c.terminal == (0, 4) && cursorOf d.terminal == (0, 4)
+                 && onCharOK (logicalLines v.terminal.buffer.lines) (logicalLines a.terminal.buffer.lines) 0 4 4
+                 && onCharOK (logicalLines v.terminal.buffer.lines) (logicalLines b.terminal.buffer.lines) 0 4 4
+                 && onCharOK (logicalLines v.terminal.buffer.lines) (logicalLines c.terminal.buffer.lines) 0 4 4
+                 && !onCharOK (logicalLines v.terminal.buffer.lines) (logicalLines d.terminal.buffer.lines) 0 4 4
+                 && (a.terminal.cursor.col, a.terminal.cursor.row, a.terminal.pendingWrap) == (4, 0, false)
+                 && (b.terminal.cursor.col, b.terminal.cursor.row, b.terminal.pendingWrap) == (0, 1, false)
+             | _, _, _, _ => false)
      | none => false) = true := by decide
 
 end Avt.Props.C10
